@@ -31,6 +31,11 @@ type nocaseCmp struct{}
 
 func (nocaseCmp) Compare(a, b []byte) int { return bytes.Compare(bytes.ToLower(a), bytes.ToLower(b)) }
 
+// byte order, but the result is a magnitude (memcmp style: < 0, 0, > 0 - not -1, 0, 1), which is all the comparator contract promises
+type magCmp struct{}
+
+func (magCmp) Compare(a, b []byte) int { return 5 * bytes.Compare(a, b) }
+
 type sstReader struct {
 	Loader   string `json:"loader"` // slice | skiplist | map | disk
 	RBuf     int    `json:"rbuf"`
@@ -49,7 +54,7 @@ type sstCase struct {
 	Readers []sstReader    `json:"readers"`
 	Probes  []int          `json:"probes"` // ranks probed with Contains / Get / ScanStartingAt
 	Ranges  [][2]int       `json:"ranges"` // (lo, hi) pairs probed with ScanRange
-	Cmp     string         `json:"cmp"`    // "" (bytes) | "nocase": writer and readers use the case-insensitive comparator
+	Cmp     string         `json:"cmp"`    // "" (bytes) | "nocase": writer and readers use the case-insensitive comparator | "mag": byte order reported as magnitudes
 	V0      bool           `json:"v0"`     // rewrite the table in the legacy (version 0) layout before it is read (tables without nil / empty values, no faults)
 	KeyLen  map[string]int `json:"keylen"` // rank -> length: the key of that rank is padded with zero bytes to this length (keeps the rank order)
 }
@@ -214,6 +219,9 @@ func runSST(args []string) error {
 		}
 		var kcmp skiplist.Comparator[[]byte] = skiplist.BytesComparator{}
 		spelled := map[int][]byte{} // rank -> the spelling that was accepted by the writer
+		if c.Cmp == "mag" {
+			kcmp = magCmp{}
+		}
 		if c.Cmp == "nocase" {
 			kcmp = nocaseCmp{}
 			for i, k := range keys {
